@@ -14,7 +14,6 @@ import (
 	"flag"
 	"fmt"
 	"go/ast"
-	"go/format"
 	"go/importer"
 	"go/parser"
 	"go/printer"
@@ -128,7 +127,10 @@ func main() {
 			in.run()
 			af.Comments = keepDirectives(af)
 			var buf bytes.Buffer
-			if err := format.Node(&buf, fset, af); err != nil {
+			// SourcePos emits //line directives so that stack traces and the
+			// explorer's schedule traces show ORIGINAL file:line positions.
+			pcfg := printer.Config{Mode: printer.SourcePos | printer.UseSpaces | printer.TabIndent, Tabwidth: 8}
+			if err := pcfg.Fprint(&buf, fset, af); err != nil {
 				// fall back to the raw printer for diagnostics
 				var b2 bytes.Buffer
 				printer.Fprint(&b2, fset, af)
